@@ -76,6 +76,7 @@ type thread struct {
 	parked  string // site where the thread was found parked (filled at abort)
 	joiners int
 	lastRun int
+	endStep int // step count when the thread finished (0: did not finish)
 }
 
 // Obj is the identity of a synchronisation object inside one execution.
@@ -399,6 +400,9 @@ func (x *Exec) exit(t *thread) {
 		x.panics = append(x.panics, PanicInfo{Thread: t.id, Name: t.name, Value: fmt.Sprint(r), Site: panicSite()})
 	}
 	t.done = true
+	if !t.abort {
+		t.endStep = x.steps
+	}
 	if t.abort {
 		x.ack <- struct{}{}
 		return
